@@ -72,7 +72,7 @@ def run_case(case, ctx):
 def _bytes(case, ctx):
     from sigpyproc.io import sigproc
 
-    for j in range(case["n"]):
+    for j in ([case["only"]] if "only" in case else range(case["n"])):
         rng = np.random.default_rng([case["seed"], j])
         others = [k for k in ALLKEYS if k not in ("nbits", "nchans")]
         m = int(rng.integers(0, len(others) + 1))
@@ -155,7 +155,7 @@ def _object(case, ctx):
     tels = list(sigproc.telescope_ids.keys())
     backs = list(sigproc.machine_ids.keys())
     dts = list(params.data_types.values())
-    for j in range(case["n"]):
+    for j in ([case["only"]] if "only" in case else range(case["n"])):
         rng = np.random.default_rng([case["seed"], j, 7])
         ra_h, dec_d, cls = _sky(rng)
         frame = ["topocentric", "barycentric", "pulsarcentric"][int(rng.integers(0, 3))]
